@@ -379,8 +379,9 @@ def read_literal(c, r):
             return None
         ring = "None" if rings[0] is None else f"(Some {g_oarr(rings[0])})"
         obs = f"(Some ({glist([o['bounds'] for o in os_], g_oarr)}, {ring}, {g_nats(shapes[0])}))"
-    return (f"({gopt(c['nc'], g_nats)}, {gopt(c['pnc'], g_nats)}, {gopt(c['ring'], g_zs)}, "
-            f"{gnat(c['nnodes'])}, {glist(c['data'], g_zs)}, {obs})")
+    # the type annotation keeps a shard of few cases (all None in some position) typable
+    return (f"(({gopt(c['nc'], g_nats)}, {gopt(c['pnc'], g_nats)}, {gopt(c['ring'], g_zs)}, "
+            f"{gnat(c['nnodes'])}, {glist(c['data'], g_zs)}, {obs}) : read_case)")
 
 
 def raw_tuple(raw):
@@ -419,7 +420,7 @@ def write_literal(c, r):
             return None
         obs = f"(Some ({g_nats(nc)}, {gopt(pnc, g_nats)}, {gopt(ring, g_zs)}, {glist(nodes, g_zs)}))"
     ring = "None" if c["ring"] is None else f"(Some {g_arr2(c['ring'])})"
-    return f"({glist(c['bounds'], g_arr3)}, {ring}, {obs})"
+    return f"(({glist(c['bounds'], g_arr3)}, {ring}, {obs}) : write_case)"
 
 
 # ---------------------------------------------------------------------------
@@ -535,6 +536,15 @@ CORPUS = [
 ]
 
 
+def small_layouts(maxcells, maxparts):
+    import itertools
+    cells = [list(t) for p in range(1, maxparts + 1) for t in itertools.product([1, 2], repeat=p)]
+    out = []
+    for n in range(1, maxcells + 1):
+        out += [list(t) for t in itertools.product(cells, repeat=n)]
+    return out
+
+
 def nontrivial(c):
     if c["kind"] == "R":
         if "layout" not in c:
@@ -556,18 +566,25 @@ def gen_cases(chk):
         for _ in range(nprof):
             cases.append(rand_R(rng, thorough, "R-profile", prof))
             cases.append(rand_W(rng, thorough, "W-profile", prof))
-    nR = 9000 if thorough else 1100
+    # every layout with up to 3 cells, up to 2 (quick) / 3 (thorough) parts per cell, 1 or 2 nodes per part
+    for lay in small_layouts(3, 3 if thorough else 2):
+        gtype = rng.choice(["line", "polygon"])
+        ring = gtype == "polygon" and rng.random() < 0.5
+        cases.append(make_R(rng, lay, gtype, True, True, ring, 1, rng.choice([0, 1]), False, "R-exhaustive"))
+        if thorough:
+            cases.append(make_W(rng, lay, gtype, ring, 1, 0, "W-exhaustive"))
+    nR = 9000 if thorough else 1500
     valid = [rand_R(rng, thorough) for _ in range(nR)]
     cases += valid
-    nM = 3000 if thorough else 400
+    nM = 3000 if thorough else 500
     for _ in range(nM):
         m = malform(rng, rng.choice(valid))
         if m.get("mkind") != "skip":
             cases.append(m)
-    nW = 5000 if thorough else 700
+    nW = 5000 if thorough else 900
     ws = [rand_W(rng, thorough) for _ in range(nW)]
     cases += ws
-    nWM = 1500 if thorough else 250
+    nWM = 1500 if thorough else 300
     for _ in range(nWM):
         cases.append(hole_W(rng, rng.choice(ws)))
     return cases
@@ -775,6 +792,9 @@ def run(chk, model_ok):
         "node coordinate variables of one container share their missing-data pattern (one set of count variables)",
         "netCDF4-python is the substrate for hand-encoding and for the raw inspection of written files",
         "numpy.unique / ma.count / slicing are modelled by their list meaning (Model.v: uniq, count_some, split_by)",
+        "rows of the indexed ragged arrays: the correspondence accepts both numpy.unique(index) (pinned tree) and "
+        "range(n_instances) (after the C06 repair of F06a); they differ only on malformed containers whose derived "
+        "index skips an instance id, and the theorems are proved for both (C14_decode, C14_decode_rows_by_range)",
     ]
 
 
